@@ -96,6 +96,8 @@ def mu_mix_owners(w, home):
         s = {'C02'}
     elif o in ('asleep-past-deadline', 'spinning-past-deadline'):
         s = {'C05'}
+    elif o == 'asleep-although-cancelled':
+        s = {'C11'} if 'wait_n' in key else {'C05'}
     elif o in ('return-reason', 'muwait-result'):
         s = {'C05'}
         if 'wait_n' in key:
